@@ -93,6 +93,28 @@ pub fn run(ctx: &Ctx, rep: &mut Report) {
             }
         });
     }
+    // compile / scheme / io_map are total on their own input too: hand-built trees (public constructors),
+    // including unsupported constructs, over-range sizes and degenerate values parse() never returns
+    let n_trees = crate::monitors::c17::tree_count(ctx.tier_thorough, ctx.scale);
+    par_cases(ctx, "trees", n_trees, rep, |i, rep| {
+        let e = crate::monitors::c17::tree_case(ctx.seed, i);
+        rep.evaluations += 1;
+        let r = guard(|| {
+            let o = crate::sut::opts_for(i);
+            match compile(&e, &o) {
+                Err(err) => format!("CompileErr({})", err),
+                Ok(c) => {
+                    let a = c.scheme("/dev/mdt0");
+                    let m = crate::sut::io_map_sorted(&c.io_map());
+                    format!("Ok {} {}", a.len(), m.len())
+                }
+            }
+        });
+        match r {
+            Ok(rec) => rep.count(if rec.starts_with("CompileErr") { "tree_compile_err" } else { "tree_ok" }),
+            Err(p) => rep.violation(&format!("C03:{}", p.sig()), &format!("panic on the hand-built tree {:?}: {}", e, p.0), &format!("trees:{}", i), J::obj(vec![("tree", J::s(format!("{:?}", e))), ("panic", J::s(&p.0))])),
+        }
+    });
     if ctx.only.is_none() {
         rep.floor("all three outcome kinds observed", rep.get("outcome_parse_err") > 100 && rep.get("outcome_compile_err") > 10 && rep.get("outcome_ok") > 100);
     }
